@@ -86,6 +86,12 @@ func (l LightClientModule) VerifyMembership(
 ) error {
 	ibcStore := l.storeService.OpenKVStore(ctx)
 
+	// the localhost client reads the current state of the chain: a proof height ahead of the chain cannot be served.
+	// NOTE: packet timeouts are evaluated against the proof height, so it must not exceed the chain's own height.
+	if selfHeight := clienttypes.GetSelfHeight(ctx); height != nil && height.GT(selfHeight) {
+		return errorsmod.Wrapf(ibcerrors.ErrInvalidHeight, "proof height %s is greater than the current height %s", height, selfHeight)
+	}
+
 	// ensure the proof provided is the expected sentinel localhost client proof
 	if !bytes.Equal(proof, SentinelProof) {
 		return errorsmod.Wrapf(commitmenttypes.ErrInvalidProof, "expected %s, got %s", string(SentinelProof), string(proof))
@@ -129,6 +135,12 @@ func (l LightClientModule) VerifyNonMembership(
 	path exported.Path,
 ) error {
 	ibcStore := l.storeService.OpenKVStore(ctx)
+
+	// the localhost client reads the current state of the chain: a proof height ahead of the chain cannot be served.
+	// NOTE: packet timeouts are evaluated against the proof height, so it must not exceed the chain's own height.
+	if selfHeight := clienttypes.GetSelfHeight(ctx); height != nil && height.GT(selfHeight) {
+		return errorsmod.Wrapf(ibcerrors.ErrInvalidHeight, "proof height %s is greater than the current height %s", height, selfHeight)
+	}
 
 	// ensure the proof provided is the expected sentinel localhost client proof
 	if !bytes.Equal(proof, SentinelProof) {
